@@ -25,6 +25,34 @@ def snapshot():
     return d
 
 
+# --related: per seeded change only the check of its own property and the checks that share rule families with it
+# (a full 20-check run costs about 70 core-minutes per change: every witness TU is recompiled for the changed headers)
+RELATED = {
+    "C01": "C01,C06,C09,C10,C16,C18,C02", "C02": "C02,C05,C07,C09,C10,C18", "C03": "C03,C04,C05,C02", "C04": "C04,C01,C03,C05,C09,C11,C18,C02",
+    "C05": "C05,C01,C02,C03", "C06": "C06,C01,C09,C17", "C07": "C07,C09,C12,C16", "C08": "C08,C07,C09,C16", "C09": "C09,C02,C06,C18",
+    "C10": "C10,C01,C02,C07,C16,C18", "C11": "C11,C04,C20", "C12": "C12,C07,C08", "C13": "C13,C14", "C14": "C14,C13", "C15": "C15,C02",
+    "C16": "C16,C07,C10", "C17": "C17,C06,C07", "C18": "C18,C01,C02,C09,C10", "C19": "C19,C08,C09,C13", "C20": "C20,C11",
+}
+
+
+def related_props(d, allprops):
+    name = os.path.basename(d.rstrip("/"))
+    if name[:3] in RELATED and name[3] == "_":
+        return RELATED[name[:3]].split(",")
+    if name.startswith("hist_"):
+        try:
+            br = json.load(open(os.path.join(d, "meta.json"))).get("breaks", [])
+        except Exception:
+            br = []
+        out = []
+        for b in br:
+            for p in RELATED.get(b, b).split(","):
+                if p not in out:
+                    out.append(p)
+        return out or allprops
+    return allprops
+
+
 def run_one(d, props):
     name = os.path.basename(d.rstrip("/"))
     wt = tempfile.mkdtemp(prefix="mx_%s_" % name, dir="/tmp")
@@ -54,6 +82,7 @@ def main():
     args = sys.argv[1:]
     jobs = 3
     props = None
+    related = False
     dirs = []
     i = 0
     while i < len(args):
@@ -61,6 +90,8 @@ def main():
             jobs = int(args[i + 1]); i += 2
         elif args[i] == "--props":
             props = args[i + 1].split(","); i += 2
+        elif args[i] == "--related":
+            related = True; i += 1
         else:
             dirs.append(args[i]); i += 1
     if props is None:
@@ -70,7 +101,7 @@ def main():
     import atexit
     atexit.register(lambda: shutil.rmtree(snap, ignore_errors=True))
     with cf.ThreadPoolExecutor(max_workers=jobs) as ex:
-        for name, out in ex.map(lambda d: run_one(d, props), dirs):
+        for name, out in ex.map(lambda d: run_one(d, related_props(d, props) if related else props), dirs):
             det = [p for p, v in out.items() if isinstance(v, dict) and v.get("rc") == 1]
             brk = [p for p, v in out.items() if isinstance(v, dict) and v.get("rc") == 2]
             print("%-32s detected_by=%s broken=%s %s" % (name, ",".join(det) or "-", ",".join(brk) or "-", out.get("_error", "")), flush=True)
